@@ -463,6 +463,19 @@ impl DnaString {
     // }
 }
 
+#[cfg(feature = "verif_hooks")]
+impl DnaString {
+    /// Verification hook: build a `DnaString` directly from its raw representation.
+    pub fn verif_from_raw(storage: Vec<u64>, len: usize) -> DnaString {
+        DnaString { storage, len }
+    }
+
+    /// Verification hook: inspect the raw representation.
+    pub fn verif_raw(&self) -> (&[u64], usize) {
+        (&self.storage, self.len)
+    }
+}
+
 impl fmt::Display for DnaString {
     fn fmt(&self, f: &mut fmt::Formatter) -> fmt::Result {
         for v in self.iter() {
